@@ -17,6 +17,8 @@ import SonicSpec.Model.IOJson
 import SonicSpec.Proofs.IO
 import SonicSpec.Proofs.IOEnc
 import SonicSpec.Proofs.IOShipped
+import SonicSpec.Proofs.IOShipped2
+import SonicSpec.Proofs.IOPatched
 namespace SonicSpec.Props.C17
 open SonicSpec SonicSpec.IO
 
@@ -127,6 +129,47 @@ theorem shipped_chunking_irrelevant_partial (r₁ r₂ : Script) (f₁ f₂ : RE
   rw [Faithful.outputs_eq_delim dec r₁ f₁ n hsd, Faithful.outputs_eq_delim dec r₂ f₂ n (hbytes ▸ hsd),
     hbytes, hterm]
 
+/-- PARTIAL (shipped decoder): the full statement under `Faithful.RunSafe` - at every `Decode`
+    call of both runs the rest of the stream is white space only or starts with a complete value
+    that the inner decoder accepts entirely and that is a string/array/object, a literal, or a
+    NUMBER THAT THE FIRST FRAMING ATTEMPT FRAMES EXACTLY.  For numbers that is: no cut falls inside
+    or directly after the number, and nothing behind it is dragged into the frame
+    (`number_framed_whole_when`: at most 16 bytes buffered from its first byte on and a blank or
+    `}` `]` `,` behind its digits).  "No cut inside or directly after a scalar" alone is not enough:
+    `shipped_number_frame_swallows_values` needs no cut at all.  Literals need no condition on cuts.
+    Missing: truncated/junk tails and stray closers (excluded by the hypothesis, false without it). -/
+theorem shipped_chunking_irrelevant_no_scalar_cut_partial (r₁ r₂ : Script) (f₁ f₂ : RErr)
+    (hbytes : concat r₁ = concat r₂) (hterm : termOf r₁ f₁ = termOf r₂ f₂)
+    (h₁ : Faithful.RunSafe dec ((concat r₁).length + 1) {} r₁ f₁)
+    (h₂ : Faithful.RunSafe dec ((concat r₂).length + 1) {} r₂ f₂) :
+    Faithful.outputs dec r₁ f₁ = Faithful.outputs dec r₂ f₂ ∧
+    Faithful.outputs dec r₁ f₁ = decodeAllStop dec (concat r₁) (termOf r₁ f₁) := by
+  refine ⟨?_, Faithful.outputs_eq_safe dec r₁ f₁ h₁⟩
+  rw [Faithful.outputs_eq_safe dec r₁ f₁ h₁, Faithful.outputs_eq_safe dec r₂ f₂ h₂, hbytes, hterm]
+
+/-- the number clause of `Faithful.StepSafe` in plain terms -/
+theorem number_framed_whole_when (c : UInt8) (r' : Bytes) (e : UInt8) (t : Bytes)
+    (hc : isNumStart c = true) (hlen : (c :: r').length ≤ 16)
+    (hnext : (c :: r').drop (numRun (c :: r')) = e :: t) (he : (isStruct e || isSpace e) = true) :
+    skipOneFast (c :: r') = .ok 0 (numRun (c :: r')) :=
+  skipOneFast_number_whole c r' e t hc hlen hnext he
+
+/-- PARTIAL (shipped decoder): when the reader fails with error code `c`, the run never ends with a
+    clean end of stream, and a reader error it reports is that error, unchanged.  Missing: that the
+    values returned before are those of the specification (false: `shipped_not_chunking_irrelevant`),
+    and the run may instead stop with a nil-without-value call (`shipped_not_decode_progress`). -/
+theorem shipped_reader_error_after_values_partial (r : Script) (f : RErr) (c : Nat)
+    (hterm : termOf r f = .fail c) :
+    (Faithful.outputs dec r f).2 ≠ .term .eof ∧
+    ∀ c', (Faithful.outputs dec r f).2 = .term (.readerErr c') → c' = c := by
+  have h := Faithful.run_stop dec ((concat r).length + 1) {} r f rfl
+  rw [hterm] at h
+  simp only [RErr.toTerminal] at h
+  unfold Faithful.outputs
+  constructor
+  · intro he; rw [he] at h; simp at h
+  · intro c' he; rw [he] at h; simpa using h
+
 /-- PARTIAL (shipped decoder): a `Decode` that returns a VALUE moved the input offset forward.
     Missing: the call can also return nil without a value (`shipped_not_decode_progress`). -/
 theorem shipped_decode_progress_partial (st : DState) (r : Script) (f : RErr) (v : V)
@@ -144,6 +187,13 @@ theorem shipped_framing_failure_returns_reader_error (st : DState) (s : Nat) (r 
   have := Faithful.frameLoop_spec s r st true f
   rw [h] at this
   exact this
+
+/-- the correspondence runs the model family `Patched.decode` (one switch per small repair
+    patches/C17-*.diff, set from known_findings.json); with every switch off it is the shipped
+    decoder these theorems are about -/
+theorem patched_none_is_shipped (st : DState) (r : Script) (f : RErr) :
+    Patched.decode dec {} st r f = Faithful.decode dec st r f :=
+  Patched.decode_none dec st r f
 
 end decoder
 
@@ -198,6 +248,11 @@ example : SelfDelimited decJson 2 [91, 49, 93, 34, 97, 34] :=
       by decide +kernel, by show dropWs _ = []; decide +kernel⟩⟩
 example : Faithful.outputs decJson [([91, 49], none), ([93, 34], none), ([97, 34], some .eof)] .eof
     = ([[91, 49, 93], [34, 97, 34]], .term .eof) := by decide +kernel
+
+/-- `Faithful.RunSafe` is satisfiable with numbers and literals in the stream: `7 true` | ` [1]` -/
+example : Faithful.outputs decJson [([55, 32, 116, 114, 117, 101], none), ([32, 91, 49, 93], none)] .eof
+    = decodeAllStop decJson [55, 32, 116, 114, 117, 101, 32, 91, 49, 93] .eof := by decide +kernel
+example : skipOneFast [55, 32, 116, 114, 117, 101] = .ok 0 1 := by decide +kernel
 
 /-! non-vacuity of the full statements on the same inputs -/
 example : Fixed.outputs decJson [([91, 49, 44, 50], none)] .eof = ([], .term .syntaxError) := by decide +kernel
